@@ -100,6 +100,9 @@ Viol(pre, a, res, post, ln) ==
   \cup If(a.a = "Ack" /\ res = "ok" /\ HasP /\ p.ack = "ok" /\ ~AllSame, "C32", "success-ack-changes-no-balance")
   \cup If(a.a \in {"Ack", "Timeout"} /\ HasP /\ ~p.com /\ ~(Rejected /\ AllSame), "C32", "refund-at-most-once")
   \cup If(a.a \in {"Ack", "Timeout"} /\ res = "ok" /\ ~Refund /\ ~AllSame, "C32", "no-refund-without-failure")
+       \* (an honest timeout of an expired, unreceived packet / an honest error acknowledgement whose commitment is still
+       \*  stored must be accepted: otherwise the refund the statement promises never happens)
+  \cup If(a.a \in {"Ack", "Timeout"} /\ RefundStep(pre, a, "ok") /\ E.res = "ok" /\ res # "ok", "C32", "refund-enabled")
   \* ---- C33 vouchers can return -----------------------------------------------------------
   \cup If(ReturnSendGuard(pre, a) /\ res # "ok", "C33", "return-send-enabled")
   \cup If(ReturnRecvGuard(pre, a)
